@@ -356,17 +356,34 @@ def lexOne (s : LS) : String × LS :=
   let (tok, s2) := baseNextToken t.nl t.comments s1
   (s!"{tokStr tok}|{s1.line}:{s1.col}:{s1.cur}", s2)
 
-partial def lexLoop (s : LS) (extra : Nat) (acc : List String) (seenEof : Bool) : List String :=
+/-- the harness's `blockCommentPlugin` (a lexer plugin written against the exported API; not part of the verified
+    model): skip `/* … */` and the blanks behind it, repeatedly -/
+partial def skipBlocks (s : LS) : LS :=
+  if s.cur == 47 && s.peek == 42 then
+    let rec body (s : LS) : LS :=
+      if s.cur == 0 then s
+      else if s.cur == 42 && s.peek == 47 then readChars 2 s
+      else if s.rest.isEmpty then s else body (readChar s)
+    let rec blanks (s : LS) : LS := if (s.cur == 32 || s.cur == 9) && !s.rest.isEmpty then blanks (readChar s) else s
+    skipBlocks (blanks (body (readChars 2 s)))
+  else s
+
+partial def lexLoop (plugin : Nat) (s : LS) (extra : Nat) (acc : List String) (seenEof : Bool) : List String :=
   let t := trivia s.rest
   let s1 := readChars t.len s
-  let (tok, s2) := baseNextToken t.nl t.comments s1
+  let s1' := if plugin == 2 then skipBlocks s1 else s1
+  let (tok, s2) := baseNextToken t.nl t.comments s1'
   let item := s!"{tokStr tok}|{s1.line}:{s1.col}:{s1.cur}"
   if tok.type == .eof then
-    if extra == 0 then (item :: acc).reverse else lexLoop s2 (extra - 1) (item :: acc) true
+    if extra == 0 then (item :: acc).reverse else lexLoop plugin s2 (extra - 1) (item :: acc) true
   else if seenEof then (item :: acc).reverse     -- cannot happen: EOF is sticky
-  else lexLoop s2 extra (item :: acc) false
+  else lexLoop plugin s2 extra (item :: acc) false
 
-def doLex (src extra : String) : String := " ".intercalate (lexLoop (LS.init (unhex src)) extra.toNat! [] false)
+/-- `extra` = 100 * plugin + extra requests; plugin 1 (`newTokenPlugin`) rebuilds tokens the way the lexer does, so the
+    model is the plain lexer -/
+def doLex (src extra : String) : String :=
+  let e := extra.toNat!
+  " ".intercalate (lexLoop (e / 100) (LS.init (unhex src)) (e % 100) [] false)
 
 def parseInt (s : String) : Int :=
   if s.startsWith "-" then -((s.drop 1).toString.toNat! : Int) else (s.toNat! : Int)
